@@ -145,8 +145,9 @@ Section WithArith.
             else Rej RejSflaRegistered
         end
     | Split post pre_ int_only =>
-        f <- split_factor post pre_ ;;
-        nsh <- gez_mul A (s_sh pre) f ;;
+        m <- a_mul A (s_sh pre) post ;;
+        qd <- a_div A m pre_ ;;
+        nsh <- gez_unwrap Site.split_balance qd ;;
         diff <- a_sub A nsh (s_sh pre) ;;
         nall <- a_add A (s_all pre) diff ;;
         if Qcltb nall 0 then Rej RejSplitAllNegative else
